@@ -98,6 +98,9 @@ def run_variant(args) -> dict:
             if ok and variant.get("expect_rule"):
                 ok = any(variant["expect_rule"] in r for f in fired for r in f.get("rules", []))
             res["status"] = "detected" if ok else ("analysis-error" if any_err else "MISSED")
+        elif variant["expect"] == "limit":
+            # a property-breaking change that is known to be out of reach of the structural rules
+            res["status"] = "limit-detected" if any_fire else "limit-undetected"
         else:
             res["status"] = "silent" if not (any_fire or any_err) else "FALSE-ALARM"
     except SyntaxError as serr:
